@@ -351,8 +351,64 @@ func checkHistory(root string, h histCase) []kit.V {
 	return vs
 }
 
+// longCase: a script whose middle line carries one long word.
+type longCase struct {
+	N     int    `json:"n"`
+	Shape string `json:"shape"` // plain | quoted | variable | comment
+}
+
+// checkLong runs `args 0 a`, a line with a word of n bytes, `args 2 b`: the
+// long line must be split like any other and the line after it must still run.
+func checkLong(root string, c longCase) []kit.V {
+	word := strings.Repeat("w", c.N)
+	var line string
+	want := []string{word, "z"}
+	switch c.Shape {
+	case "plain":
+		line = "args 1 " + word + " z"
+	case "quoted":
+		word = strings.Repeat("q 'x", c.N/4)
+		want = []string{word, "z"}
+		line = "args 1 " + Q(word) + " z"
+	case "variable":
+		line = "args 1 ${X}" + word[1:] + " z"
+		want = []string{"v" + word[1:], "z"}
+	case "comment":
+		line = "args 1 z # " + word
+		want = []string{"z"}
+	}
+	rec, res := runScript(root, "env X=v\nargs 0 a\n"+line+"\nargs 2 b\n")
+	key := fmt.Sprintf("long-line shape=%s len=%d", c.Shape, c.N)
+	bad := func(what string) []kit.V {
+		return []kit.V{{Key: key, What: fmt.Sprintf("script with a %s word of %d bytes on its third line: %s", c.Shape, c.N, what), Case: c}}
+	}
+	if res.Verdict != tsh.Pass {
+		l := res.Log
+		if len(l) > 300 {
+			l = l[:300] + "..."
+		}
+		return bad("the run is reported " + string(res.Verdict) + ": " + l)
+	}
+	if !eq(rec.args[0], []string{"a"}) {
+		return bad(fmt.Sprintf("the line before it gave %q", rec.args[0]))
+	}
+	if !eq(rec.args[1], want) {
+		got := rec.args[1]
+		lens := []int{}
+		for _, g := range got {
+			lens = append(lens, len(g))
+		}
+		return bad(fmt.Sprintf("the command received %d words of lengths %v, want %d words of lengths %d and 1", len(got), lens, len(want), len(want[0])))
+	}
+	if !eq(rec.args[2], []string{"b"}) {
+		return bad(fmt.Sprintf("the line after it did not run as written: the command received %q, want [\"b\"]", rec.args[2]))
+	}
+	return nil
+}
+
 type kase struct {
 	Kind string     `json:"kind"`
+	Long *longCase  `json:"long,omitempty"`
 	Line *lineCase  `json:"line,omitempty"`
 	Hist *histCase  `json:"hist,omitempty"`
 	R    *[2]string `json:"rlaw,omitempty"`
@@ -379,6 +435,8 @@ func realMain() {
 			return checkHistory(root, *c.Hist)
 		case "rlaw":
 			return checkRLaw(root, []string{c.R[0]}, []string{c.R[1]})
+		case "long":
+			return checkLong(root, *c.Long)
 		}
 		return checkBatch(root, c.Line.Env, []string{c.Line.Line}, c.Line.Kind)
 	}
@@ -399,6 +457,9 @@ func realMain() {
 			case [2]string:
 				kk.Kind = "rlaw"
 				kk.R = &c
+			case longCase:
+				kk.Kind = "long"
+				kk.Long = &c
 			}
 			r.Violation(v.Key, v.What, kk)
 		}
@@ -578,6 +639,19 @@ func realMain() {
 	nontrivial += int64(len(hists))
 	r.Sample(map[string]any{"env_history": hists[len(hists)/2].Assign})
 
+	// (3b) long lines: word lengths that straddle the buffer sizes a
+	// line-oriented reader might use
+	var longs int64
+	for _, n := range []int{4095, 4096, 4097, 65500, 65534, 65535, 65536, 65537, 70000, 131072, 1 << 20} {
+		for _, shape := range []string{"plain", "quoted", "variable", "comment"} {
+			report(checkLong(root, longCase{N: n, Shape: shape}))
+			longs++
+		}
+	}
+	evals += longs
+	nontrivial += longs
+	r.Set("long_line_scripts", longs)
+
 	// (4) @R law
 	rAlpha := enum.Bytes("a", ".", "*", "(", "\\", "$", "^", "[", "+", "|")
 	var rvals, rstrs []string
@@ -593,7 +667,7 @@ func realMain() {
 
 	r.Set("evaluations", evals)
 	r.Set("distinct_nontrivial", nontrivial)
-	r.Set("rule", fmt.Sprintf("quoting law: every word of <= %d bytes over {a,SP,TAB,',$,#,CR,{,},@,\\,=,à,0xA0} quoted (3 placements) and every pair of words of <= 2 bytes (separate and adjacent); splitting: every line of <= %d tokens over {a,b,SP,TAB,','',#,$X,${X},${X@R},$$,${/},${:},CR,à,NEL,VT,FF}; env histories: every sequence of <= %d assignments over {X,Y} x 10 values, and every sequence of 1-2 assignments made by Params.Setup over {X,Y,HOME} x 2 values followed by 0-2 script assignments, observed through expansion, Getenv and a child process; @R: every value of <= 3 bytes over 10 regexp metacharacters against every string of <= %d. non-trivial = non-empty words / lines with a quote, $, # or blank / all histories and values, counted", n1, n2, maxH, nstr))
+	r.Set("rule", fmt.Sprintf("quoting law: every word of <= %d bytes over {a,SP,TAB,',$,#,CR,{,},@,\\,=,à,0xA0} quoted (3 placements) and every pair of words of <= 2 bytes (separate and adjacent); splitting: every line of <= %d tokens over {a,b,SP,TAB,','',#,$X,${X},${X@R},$$,${/},${:},CR,à,NEL,VT,FF}; long lines: a word of 4095..4097, 65500..65537, 70000, 131072 or 1048576 bytes (plain, quoted, after a variable, in a comment) between two ordinary lines; env histories: every sequence of <= %d assignments over {X,Y} x 10 values, and every sequence of 1-2 assignments made by Params.Setup over {X,Y,HOME} x 2 values followed by 0-2 script assignments, observed through expansion, Getenv and a child process; @R: every value of <= 3 bytes over 10 regexp metacharacters against every string of <= %d. non-trivial = non-empty words / lines with a quote, $, # or blank / all histories and values, counted", n1, n2, maxH, nstr))
 	r.Set("env_histories", len(hists))
 	r.Set("r_law_values", len(rvals))
 	r.Set("exhaustive", !r.Capped())
